@@ -391,6 +391,40 @@ func runC05(e *core.Env, n int) {
 		run.Cancel()
 	})
 
+	// a full-duplex handler with a pusher goroutine blocked in SendMsg (the client is not listening yet) while
+	// the handler itself receives what the client sends; the client says everything before it listens. Nothing
+	// here waits for anything but its peer's next step: it all completes without a cancellation
+	e.Cases("pusher-blocked-while-receiving", e.N(12, 100), func(i int, r *rand.Rand) {
+		c := carriers[0]
+		sc := &Script{Kind: Bidi, RecvAfterSend: true}
+		n := 2 + r.Intn(6)
+		for k := 0; k < n; k++ {
+			sc.Sender = append(sc.Sender, Op{Op: "send", Msg: &tpb.Message{Payload: []byte(fmt.Sprintf("said-%d", k))}})
+		}
+		sc.Sender = append(sc.Sender, Op{Op: "close"})
+		sc.Receiver = []Op{{Op: "recvall"}}
+		sc.Handler = []Op{{Op: "bg-sends", Msg: &tpb.Message{Payload: []byte("pushed")}}, {Op: "recvall"}}
+		run := c.Svc.NewRun(sc, c.Name)
+		defer c.Svc.Forget(run)
+		done := make(chan struct{})
+		go func() {
+			run.Exec(c.CC, nil, 120*time.Second)
+			close(done)
+		}()
+		fin, stuck, dump := waitDoneOrStuck(done, 60*time.Second)
+		e.Eval(c.Name+"|pusher-blocked|"+sc.Shape(), true)
+		if !fin {
+			if stuck {
+				e.Violate(c.Name+"/bidi/deadlock/pusher-blocked-while-receiving", "a handler goroutine blocked in SendMsg (the client not listening yet) and the handler receiving what the client sends: the two directions wait for each other: "+parkedSummary(dump), map[string]any{"script": sc, "events": run.Events(), "goroutines": trunc(dump, 20000)})
+			} else {
+				e.Inconclusive("C05 pusher-blocked-while-receiving: watchdog without a stable park")
+			}
+			forceEnd(run, done)
+			return
+		}
+		run.Cancel()
+	})
+
 	// a send that the client side itself rejects (the message cannot be encoded), then CloseSend and a receive: the
 	// half-close still ends the request stream, so the handler (which consumes it and answers) and the client finish
 	// on their own - nothing has to be cancelled
